@@ -640,7 +640,11 @@ func FuzzyMatchV2(caseSensitive bool, normalize bool, forward bool, input *util.
 				}
 				i--
 			}
-			preferMatch = C[I+j0] > 1 || I+width+j0+1 < len(C) && C[I+width+j0+1] > 0
+			// Only look at the cell of the next row if that row has been filled in
+			// there (each row is computed from F[row] on); otherwise it holds
+			// whatever the slab contained before
+			nrow := I/width + 1
+			preferMatch = C[I+j0] > 1 || nrow < M && j+1 >= int(F[nrow]) && I+width+j0+1 < len(C) && C[I+width+j0+1] > 0
 			j--
 		}
 	}
